@@ -102,8 +102,11 @@ deriving DecidableEq, Repr, Inhabited
 inductive Pc | created | initial | rep (i : Nat) | cyclic | done
 deriving DecidableEq, Repr, Inhabited
 
+/-- a task is identified by who created it and a per-creator running number: a reference to an asyncio.Task is an
+object reference, only its creator holds it, and nobody can reach another component's task through its own -/
+abbrev Tid := TaskKind × Nat
+
 structure TaskSt where
-  kind : TaskKind
   pc : Pc := .created
   cancelled : Bool := false       -- CancelledError is thrown at the next step
   waiting : Bool := false         -- suspended on a sleep future
@@ -121,8 +124,8 @@ inductive Cb
   | sendStopSubscribe (dest : Addr) (egs : List Eventgroup)
   | sendOfferTo (inst : Nat) (remote : Addr)
   | collectorTimeout (cid : Nat)
-  | taskStep (tid : Nat)
-  | sleepDone (tid : Nat)
+  | taskStep (tid : Tid)
+  | sleepDone (tid : Tid)
 deriving Repr, Inhabited
 
 inductive Out
@@ -158,8 +161,7 @@ structure Stack where
   draws : List Nat := []               -- values `random.uniform` will return (clamped into the window)
   incoming : Incoming := []
   outgoing : Outgoing := []
-  tasks : List (Nat × TaskSt) := []
-  nextTid : Nat := 0
+  tasks : List (Tid × TaskSt) := []
   -- ServiceDiscover
   watched : List (Service × List Listener) := []
   watchAll : List LId := []
@@ -172,6 +174,7 @@ structure Stack where
   alive : Bool := false
   subTask : Option Nat := none
   subEntries : List (Eventgroup × Addr) := []
+  subLog : List (Addr × Nat × List Eventgroup) := []   -- ghost: every (server, TTL, eventgroups) the subscriber handed to send_sd, in order
   -- ServiceAnnouncer
   started : Bool := false
   instances : List Instance := []
@@ -271,18 +274,18 @@ def collectorTimeout (s : Stack) (cid : Nat) : Stack :=
 
 /-! #### tasks -/
 
-def getTask (s : Stack) (tid : Nat) : Option TaskSt := alookup s.tasks tid
-def setTask (s : Stack) (tid : Nat) (t : TaskSt) : Stack :=
+def getTask (s : Stack) (tid : Tid) : Option TaskSt := alookup s.tasks tid
+def setTask (s : Stack) (tid : Tid) (t : TaskSt) : Stack :=
   { s with tasks := s.tasks.map (fun p => if p.1 = tid then (tid, t) else p) }
 
 /-- `loop.create_task(coro)`: the first step is one hop away -/
+def taskCount (s : Stack) (kind : TaskKind) : Nat := (s.tasks.filter (fun p => decide (p.1.1 = kind))).length
 def createTask (s : Stack) (kind : TaskKind) : Stack × Nat :=
-  let tid := s.nextTid
-  let t : TaskSt := { kind := kind }
-  (({ s with tasks := s.tasks ++ [(tid, t)], nextTid := tid + 1 }).callSoon (.taskStep tid), tid)
+  let n := s.taskCount kind
+  (({ s with tasks := s.tasks ++ [((kind, n), ({} : TaskSt))] }).callSoon (.taskStep (kind, n)), n)
 
 /-- `task.cancel()` -/
-def cancelTask (s : Stack) (tid : Nat) : Stack :=
+def cancelTask (s : Stack) (tid : Tid) : Stack :=
   match s.getTask tid with
   | none => s
   | some t =>
@@ -291,17 +294,17 @@ def cancelTask (s : Stack) (tid : Nat) : Stack :=
     else s.setTask tid { t with cancelled := true }
 
 /-- `await asyncio.sleep(d)` at the end of a step: suspend the task with the given next pc -/
-def sleepFor (s : Stack) (tid : Nat) (t : TaskSt) (d : Nat) (pc : Pc) : Stack :=
+def sleepFor (s : Stack) (tid : Tid) (t : TaskSt) (d : Nat) (pc : Pc) : Stack :=
   if d = 0 then (s.setTask tid { t with pc, waiting := false, sleep := none }).callSoon (.taskStep tid)
   else
     let r := s.callLater d (.sleepDone tid)
     r.1.setTask tid { t with pc, waiting := true, sleep := some r.2 }
 
-def finish (s : Stack) (tid : Nat) (t : TaskSt) : Stack :=
+def finish (s : Stack) (tid : Tid) (t : TaskSt) : Stack :=
   s.setTask tid { t with pc := .done, waiting := false, sleep := none, cancelled := false }
 
 /-- the timer of a sleep fired: wake the task unless the sleep was cancelled meanwhile -/
-def sleepDone (s : Stack) (tid : Nat) : Stack :=
+def sleepDone (s : Stack) (tid : Tid) : Stack :=
   match s.getTask tid with
   | none => s
   | some t => if t.waiting then (s.setTask tid { t with waiting := false, sleep := none }).callSoon (.taskStep tid) else s
@@ -322,7 +325,7 @@ def sendOffer (s : Stack) (i : Nat) (remote : Dest) (stop : Bool) : Stack :=
 def pow2 (i : Nat) : Nat := 2 ^ i
 
 /-- one step of `ServiceInstance._offer_task` -/
-def stepOffer (s : Stack) (tid : Nat) (t : TaskSt) (i : Nat) : Stack :=
+def stepOffer (s : Stack) (tid : Tid) (t : TaskSt) (i : Nat) : Stack :=
   let cancelHandler (s : Stack) : Stack :=
     -- except CancelledError: _can_answer_offers = False; finally: StopOffer if cyclic
     let s := match s.getInst i with
@@ -395,7 +398,7 @@ def instStop (s : Stack) (i : Nat) : Stack :=
     match x.task with
     | none => s.emit (.raised .runtime)
     | some tid =>
-      let s := s.cancelTask tid
+      let s := s.cancelTask (.offer i, tid)
       let s := s.setInst i { x with task := none, canAnswer := false }
       let s := if s.tm.cyclicOfferDelay = 0 then s.sendOffer i none true else s
       s.subsStopAll i
@@ -506,7 +509,7 @@ def groupEntries (es : List (Eventgroup × Addr)) : List (Addr × List Eventgrou
     else acc ++ [(p.2, [p.1])]) []
 
 def sendSubscribe (s : Stack) (ttl : Nat) (dest : Addr) (egs : List Eventgroup) : Stack :=
-  s.sendSd (egs.map (fun g => g.createSubscribeEntry ttl 0)) (some dest)
+  ({ s with subLog := s.subLog ++ [(dest, ttl, egs)] } : Stack).sendSd (egs.map (fun g => g.createSubscribeEntry ttl 0)) (some dest)
 
 def subscribeEventgroup (s : Stack) (g : Eventgroup) (dest : Addr) : Stack :=
   let s := { s with subEntries := s.subEntries ++ [(g, dest)] }
@@ -527,12 +530,12 @@ def subscriberStop (s : Stack) (sendStop : Bool) : Stack :=
   if !s.alive then s else
   let s := { s with alive := false }
   let s := match s.subTask with
-    | some tid => { s.cancelTask tid with subTask := none }
+    | some tid => { s.cancelTask (.subscribe, tid) with subTask := none }
     | none => s
   if sendStop then (groupEntries s.subEntries).foldl (fun s p => s.callSoon (.sendStopSubscribe p.1 p.2)) s else s
 
 /-- one step of `ServiceSubscriber._subscribe` -/
-def stepSubscribe (s : Stack) (tid : Nat) (t : TaskSt) : Stack :=
+def stepSubscribe (s : Stack) (tid : Tid) (t : TaskSt) : Stack :=
   let round (s : Stack) : Stack :=
     let s := (groupEntries s.subEntries).foldl (fun s p => s.sendSubscribe s.tm.subscribeTtl p.1 p.2) s
     match s.tm.subscribeRefresh with
@@ -668,7 +671,7 @@ def findEntries (s : Stack) : List SDEntry :=
   (s.watched.filter (fun p => !s.serviceFound p.1)).map (fun p => p.1.createFindEntry s.tm.findTtl)
 
 /-- one step of `ServiceDiscover.send_find_services` -/
-def stepFind (s : Stack) (tid : Nat) (t : TaskSt) : Stack :=
+def stepFind (s : Stack) (tid : Tid) (t : TaskSt) : Stack :=
   let afterSend (s : Stack) (k : Nat) : Stack :=
     if k < s.tm.repetitionsMax then s.sleepFor tid t (pow2 k * s.tm.repetitionsBaseDelay) (.rep k) else s.finish tid t
   let round (s : Stack) (k : Nat) : Stack :=
@@ -687,7 +690,7 @@ def stepFind (s : Stack) (tid : Nat) (t : TaskSt) : Stack :=
 
 def discoveryStart (s : Stack) : Stack :=
   let running : Bool := match s.findTask with
-    | some tid => (match s.getTask tid with | some t => decide (t.pc ≠ .done) | none => false)
+    | some tid => (match s.getTask (.find, tid) with | some t => decide (t.pc ≠ .done) | none => false)
     | none => false
   if running then s else
   let r := s.createTask .find
@@ -695,7 +698,7 @@ def discoveryStart (s : Stack) : Stack :=
 
 def discoveryStop (s : Stack) : Stack :=
   match s.findTask with
-  | some tid => { s.cancelTask tid with findTask := none }
+  | some tid => { s.cancelTask (.find, tid) with findTask := none }
   | none => s
 
 /-! #### protocol level -/
@@ -758,7 +761,7 @@ def runCb (s : Stack) : Cb → Stack
       -- resuming from `asyncio.sleep`: its `finally` cancels the timer handle
       let s := s.cancelTimer isSleep t.sleep
       let t := { t with sleep := none, waiting := false }
-      match t.kind with
+      match tid.1 with
       | .offer i => s.stepOffer tid t i
       | .find => s.stepFind tid t
       | .subscribe => s.stepSubscribe tid t
